@@ -36,7 +36,7 @@ EPS = 2.0 ** -52
 K_EST = 1000.0
 USEFUL = 1e-8
 KERNELS = ['sinc', 'expm1', 'log1p', 'w_over_sin', 'tan', 'sinc_half_sq', 'sinc_sqrt']
-GS = ['exp', 'poly', 'cos2', 'inv4']
+GS = ['exp', 'poly', 'cos2', 'inv4', 'cexp', 'cinv']       # (the last two are complex-valued on the real axis)
 
 
 def setup(ctx, mon):
@@ -52,6 +52,10 @@ def g_fun(name, a):
         return lambda z: 1.5 + a * z - 0.5 * z * z + 0.25 * z * z * z
     if name == 'cos2':
         return lambda z: np.cos(z) + 2.0
+    if name == 'cexp':
+        return lambda z: np.exp(1j * a * z) + 0.5
+    if name == 'cinv':
+        return lambda z: 1.0 / (z + (2.0 + a) * 1j)
     return lambda z: 1.0 / (4.0 + z)
 
 
